@@ -288,3 +288,18 @@ prop("C18", "exploration",
      {"quick": 120, "thorough": 1500},
      ["forks are longer than the branch they replace (the wallet ignores a node whose height is below its confirmed height)"],
      required_hist=["judged-reverted:scan", "judged-reverted:full-refresh", "judged-confirmed:refresh"])
+
+prop("C20", "exploration",
+     "schedules at wallet-lock granularity, enumerated: hook H2 announces every wallet_lock! acquisition of update_wallet_state / scan / scan with "
+     "delete_unconfirmed (9-13 per run); at each acquisition position (lock not held) the harness runs complete other operations inline - reserve, finalize, "
+     "cancel, receive, initiate, finalize+post+mine, node events (a block, enough blocks to pass a pending TTL) - singly at every position and in pairs at "
+     "every position pair in both orders, each schedule starting from the same directory snapshot (A: two sends and a coinbase mined but not yet seen, a "
+     "reserved send with TTL pending, B: the same past the TTL, C: B with one output record deleted and one wrongly Spent). Oracle: the final canonical "
+     "records (outputs with status, value and the content of their entry; entries as a multiset with type, confirmation, amounts, fee, TTL, kernel excess by "
+     "value for pre-made slates, proof signatures present, stored tx; child indices per account) together with which operations took effect must equal the "
+     "outcome of one of the serial orders run on the same snapshot. distinct = (start state, operations, positions, outcome); non-trivial = all",
+     [{"name": "c20", "cmd": "c20", "shards": {"quick": 16, "thorough": 16}, "crash_is_violation": True}],
+     {"quick": 2000, "thorough": 15000},
+     ["operations are atomic under the wallet lock, so interleavings are enumerated at lock-acquisition granularity, the granularity the property quantifies over",
+      "a refresh/scan that returns an error under an interleaving is counted, not judged"],
+     required_hist=["schedule-serializable", "schedules-in-configs-where-order-matters"])
